@@ -17,6 +17,19 @@ def gen_rels():
     return True, ""
 
 
+def gen_compare():
+    """sexpr/ast/compare.go -> coq/gen/CompareGen.v (the Compare methods as lexicographic chains, in the code's order)."""
+    os.makedirs(vc.BUILD, exist_ok=True)
+    binp = os.path.join(vc.BUILD, "gencompare")
+    rc, out = vc.run(["go", "build", "-o", binp, "./cmd/gencompare"], cwd=vc.HARNESS, timeout=600, env=vc.GOENV)
+    if rc != 0:
+        return False, "gencompare does not build: " + out[-1500:]
+    rc, out = vc.run([binp, vc.REPO, os.path.join(vc.COQ, "gen")], cwd=vc.VERIF, timeout=120, env=vc.GOENV)
+    if rc != 0:
+        return False, "gencompare: " + out[-1500:]
+    return True, ""
+
+
 def gen_tables():
     import gen_tables as gt
     return gt.generate(vc.REPO, os.path.join(vc.COQ, "gen"))
